@@ -943,6 +943,8 @@ pub fn run_history<OC: Cache<OCv>, SC: Cache<SCv>>(base: &Base, rng: &mut Rng, o
                     if ans.starts_with('v') {
                         out.failures.push(("promise-has-value".into(), format!("unfulfilled promise {} reads {}", id, ans)));
                     }
+                } else if saves > 0 && *id >= base.size && !abs.written.contains_key(id) {
+                    // a number the saves themselves allocated (info dictionary, cross-reference stream)
                 } else {
                     let exp = show_expect(&expect_of(base, &abs, *id));
                     let ok = if saves > 0 { same_read(&exp, &ans) } else { exp == ans };
@@ -1315,6 +1317,27 @@ fn witnesses() -> Oracle {
             return Err(format!("get(3 0 R) after update returns {} (the value before the update was {})", after, before));
         }
         Ok(())
+    });
+    run("D24-get-before-create", "D24-create-does-not-invalidate-cache", &|| {
+        let b = witness_base(b"", false, false);
+        let mut st = Storage::with_cache(b.bytes.clone(), ParseOptions::strict(), pdf::file::SyncCache::new(), pdf::file::SyncCache::new(), NoLog).map_err(|e| format!("{}", e))?;
+        st.load_storage_and_trailer().map_err(|e| format!("{}", e))?;
+        // the next number create() hands out is 5 (table of /Size 4 plus the trailing free entry)
+        let r5 = PlainRef { id: 5, gen: 0 };
+        if st.resolver().get::<Primitive>(Ref::new(r5)).is_ok() {
+            return Err("object 5 exists in the witness base".into());
+        }
+        let new = dict_val(40, "New");
+        let r = st.create(W(new.clone())).map_err(|e| format!("create: {}", e))?.get_ref().get_inner();
+        if r != r5 {
+            return Err(format!("create handed out {:?}, the witness expects 5 0 R", r));
+        }
+        let res = st.resolver();
+        match res.get::<Primitive>(Ref::new(r5)) {
+            Ok(v) if from_prim(&v, &res).canon() == new.canon() => Ok(()),
+            Ok(v) => Err(format!("get of the created reference returns {}", from_prim(&v, &res).canon())),
+            Err(e) => Err(format!("get of the reference create() just handed out fails with the error cached before the object existed: {}", err_show(&e))),
+        }
     });
     // D25: a failed save must not poison later saves
     run("D25-save-after-failed-save", "D25-failed-save-leaves-promise", &|| {
